@@ -1,6 +1,7 @@
 package main
 
 import (
+	"os"
 	"encoding/json"
 	"fmt"
 	"reflect"
@@ -345,7 +346,9 @@ var c08KeyRe = regexp.MustCompile(`"[a-z][a-z0-9_]*":`)
 var c08FreshKeyRe = regexp.MustCompile(`"fresh_field_[0-9]+":`)
 
 func c08Codecs(c *Ctx, i int, r *gen.Rng) {
-	defer hookSchedule(c, i, pcacheHooks)()
+	// Codec rounds only count the arrivals at the program-cache points; delays are injected there
+	// only on request (VERIF_C08_CODEC_DELAYS=1): see DESIGN section 11, "open observation".
+	defer hookScheduleOpt(c, i, pcacheHooks, os.Getenv("VERIF_C08_CODEC_DELAYS") == "1")()
 	G := r.Range(2, 16)
 	K := r.Range(1, 8)
 	var calls []*c08Call
